@@ -115,6 +115,32 @@ def iso_its(a, b):
     return rm.isomorphic(a, b, lambda x, y: strip_nb(x["typesGH"]) == strip_nb(y["typesGH"]), lambda x, y: tuple(x["order"]) == tuple(y["order"]))
 
 
+NO_BOND_CHANGE = {
+    "electron_transfer": "[Fe+2:1].[Ce+4:2]>>[Fe+3:1].[Ce+3:2]",
+    "proton_transfer_implicit": "[CH3:1][OH:2].[NH3:3]>>[CH3:1][O-:2].[NH4+:3]",
+    "pyridine_protonation_implicit": "[cH:1]1[cH:2][cH:3][n:4][cH:5][cH:6]1.[OH3+:7]>>[cH:1]1[cH:2][cH:3][nH+:4][cH:5][cH:6]1.[OH2:8]".replace(":8]", ":7]"),
+    "zwitterion": "[NH2:1][CH2:2][C:3](=[O:4])[OH:5]>>[NH3+:1][CH2:2][C:3](=[O:4])[O-:5]",
+    "radical_anion": "[CH3:1][C:2](=[O:3])[CH3:4].[Na:5]>>[CH3:1][C:2]([O-:3])[CH3:4].[Na+:5]",
+}
+
+
+def kekule_writing(rsmi):
+    """the same reaction with aromatic rings written as alternating single and double bonds (what sanitisation would rewrite)"""
+    from rdkit import Chem
+
+    out = []
+    for side in er.split(rsmi):
+        m = Chem.MolFromSmiles(side)
+        if m is None:
+            return None
+        try:
+            Chem.Kekulize(m, clearAromaticFlags=True)
+        except Exception:
+            return None
+        out.append(Chem.MolToSmiles(m, kekuleSmiles=True, canonical=False))
+    return ">>".join(out)
+
+
 def spectators(rsmi):
     """the reaction with a fully mapped molecule that does not take part added to both sides: H2, a proton, water"""
     top = max(er.all_maps(rsmi))
@@ -131,6 +157,10 @@ def gen_corpus(tier, seed):
         if not (er.is_balanced(s) and er.fully_mapped_bijective(s)):
             continue
         yield [rid, s]
+    # reactions in which no bond changes and atoms do (charge / hydrogen count only)
+    for name, s in NO_BOND_CHANGE.items():
+        if er.is_balanced(s) and er.fully_mapped_bijective(s):
+            yield [f"nobond#{name}", s]
     # hand-written explicit-hydrogen reactions in the corpus style (the hydrogens that move are atoms, the others counts; writing a
     # reaction back folds spectator hydrogen atoms by design, so the all-explicit writings are not round-trip inputs), each also with
     # spectator molecules
@@ -184,6 +214,24 @@ def check_corpus(case):
         judge_decompose(G, H, its, fails, tag, shared_only=False)
         if fails:
             break
+        if tag == "identity":
+            # reading options reach both routes alike: the ITS of a reaction read without sanitisation (resp. keeping unmapped
+            # fragments) is built from exactly the graphs rsmi_to_graph returns under the same options
+            vk = kekule_writing(v)
+            for label, text, kw in (("sanitize=False", vk, dict(sanitize=False)), ("sanitize=False,as_written", v, dict(sanitize=False)), ("drop_non_aam=False", v, dict(drop_non_aam=False))):
+                if text is None:
+                    continue
+                try:
+                    Gf, Hf = rsmi_to_graph(text, **kw)
+                    its_f = rsmi_to_its(text, **kw)
+                except Exception as e:
+                    fails.append(Fail("reading_options", f"{label}: {type(e).__name__}: {e}", "graphs and ITS", key_extra=label))
+                    break
+                n += 1
+                if Gf is None or Hf is None or its_f is None or not judge_its(Gf, Hf, its_f, fails, f"{tag}/{label}"):
+                    break
+            if fails:
+                break
         if tag in ("identity", "reversal", "reverse"):
             its_ia = ITSConstruction().ITSGraph(G, H, ignore_aromaticity=True)
             n += 1
